@@ -15,6 +15,7 @@ EnvAll == {"flip", "dn", "san", "ext", "avail", "grab", "fcreate", "vanish", "ne
 EnvSeq == {"flip", "dn", "san", "ext", "avail", "grab", "fcreate", "vanish"}
 EnvCore == {"flip", "dn", "avail", "nest"}
 EnvCalm == {"flip", "avail"}
+EnvMid == {"flip", "dn", "avail", "grab", "vanish", "nest"}
 InterfAll == {"svc", "secS", "sa-r1", "sa-r2", "sa-sx", "dep-r1", "dep-r2", "dep-dx"}
 InterfDeps == {"svc", "dep-r1", "dep-r2", "dep-dx"}
 InterfNone == {}
